@@ -253,7 +253,8 @@ fn determine_target(
         } else {
             target
         };
-        if let Some(pos) = without_scheme.find('/') {
+        // The authority ends at the first '/' or, when the path is empty, at the '?' of the query.
+        if let Some(pos) = without_scheme.find(['/', '?']) {
             host = without_scheme[..pos].to_string();
             path = without_scheme[pos..].to_string();
         } else {
